@@ -29,15 +29,16 @@ SimJob(fam, nkeys, maxlen) == [fam |-> fam, alpha |-> "sim", prefix |-> "p0", ma
 \* the enumeration plans (IOEnv.PLAN)
 Plans ==
   [quick    |-> {Job("small", "R", "p0", 3), Job("const", "R", "p0", 3), Job("small", "F", "p4h", 2), Job("const", "F", "p4h", 2),
-                 Job("small", "R", "p8", 2), Job("mod", "R", "p4h", 2), Job("bound", "F", "p0", 2), Job("bound", "R", "p4h", 2),
+                 Job("small", "R", "p8", 2), Job("mod", "R", "p4h", 2), Job("bound", "R", "p0", 2), Job("bound", "R", "p4h", 2),
                  Job("str", "R", "p4h", 2), Job("mod", "R", "p8h", 2), Job("min", "R", "p0", 2)},
-   thorough |-> {Job("small", "R", "p0", 4), Job("const", "R", "p0", 4),
-                 Job("small", "F", "p0", 3), Job("bound", "F", "p0", 3), Job("const", "F", "p4h", 3), Job("mod", "F", "p4h", 3),
-                 Job("small", "R", "p3", 3), Job("small", "R", "p4", 3), Job("small", "R", "p4h", 3), Job("small", "R", "p8", 3),
-                 Job("small", "R", "p8h", 3), Job("const", "R", "p4", 3), Job("const", "R", "p8h", 3),
-                 Job("mod", "R", "p0", 3), Job("mod", "R", "p8h", 3), Job("bound", "R", "p4h", 3), Job("bound", "R", "p8h", 3),
-                 Job("str", "R", "p0", 3), Job("str", "R", "p4h", 3), Job("str", "R", "p8h", 3), Job("str", "F", "p0", 2),
-                 Job("min", "R", "p0", 2), Job("min", "R", "p4h", 2)},
+   thorough |-> {Job("const", "R", "p0", 4), Job("const", "F", "p4h", 2), Job("const", "F", "p0", 2),
+                 Job("small", "R", "p0", 3), Job("small", "R", "p3", 3), Job("small", "R", "p4", 3), Job("small", "R", "p4h", 3),
+                 Job("small", "R", "p8", 3), Job("small", "R", "p8h", 3), Job("const", "R", "p4", 3), Job("const", "R", "p8h", 3),
+                 Job("mod", "R", "p0", 3), Job("mod", "R", "p4h", 3), Job("mod", "R", "p8h", 3),
+                 Job("bound", "R", "p0", 3), Job("bound", "R", "p4h", 3), Job("bound", "R", "p8h", 3),
+                 Job("str", "R", "p0", 3), Job("str", "R", "p4h", 3), Job("str", "R", "p8h", 3),
+                 Job("small", "F", "p0", 2), Job("small", "F", "p4h", 2), Job("small", "F", "p8h", 2), Job("mod", "F", "p4h", 2),
+                 Job("bound", "F", "p0", 2), Job("str", "F", "p0", 2), Job("min", "R", "p0", 2), Job("min", "R", "p4h", 2)},
    simquick    |-> {SimJob("small", 14, 40), SimJob("const", 14, 40), SimJob("mod", 14, 40), SimJob("bound", 14, 40), SimJob("str", 14, 40)},
    simthorough |-> {SimJob("small", 20, 80), SimJob("const", 20, 80), SimJob("mod", 20, 80), SimJob("bound", 16, 80), SimJob("str", 16, 80),
                     SimJob("small", 10, 40), SimJob("const", 10, 40)}]
